@@ -49,9 +49,11 @@ pub fn delimiter_nesting(text: &str) -> usize {
 const WIDTHS: &[usize] = &[1, 2, 3, 5, 8, 13, 21, 40, 80, 100, 200];
 const INDENTS: &[usize] = &[1, 2, 4, 8];
 
-pub fn seeds(cfg: &Cfg) -> (u64, u64, u64, u64) {
+/// Numbers of seed sources per family: repository sources, the same with trivia mutations, grammar terms, generated core
+/// programs, verbatim regions in context.
+pub fn seeds(cfg: &Cfg) -> (u64, u64, u64, u64, u64) {
     let c = e2::corpus().len() as u64;
-    (c, c, cfg.tier.pick(300, 8_000), cfg.tier.pick(150, 4_000))
+    (c, c, cfg.tier.pick(300, 8_000), cfg.tier.pick(150, 4_000), cfg.tier.pick(200, 6_000))
 }
 
 pub fn variants(cfg: &Cfg) -> u64 {
@@ -59,15 +61,15 @@ pub fn variants(cfg: &Cfg) -> u64 {
 }
 
 pub fn total(cfg: &Cfg) -> u64 {
-    let (a, b, c, d) = seeds(cfg);
-    (a + b + c + d) * variants(cfg)
+    let (a, b, c, d, e) = seeds(cfg);
+    (a + b + c + d + e) * variants(cfg)
 }
 
 pub fn case(cfg: &Cfg, index: u64) -> FmtCase {
     let v = variants(cfg);
     let seed_no = index / v;
     let variant = index % v;
-    let (a, b, c, _d) = seeds(cfg);
+    let (a, b, c, d, _e) = seeds(cfg);
     let mut rng = Rng::for_case(cfg.seed, "fmtwork", index);
     let mut srng = Rng::for_case(cfg.seed, "fmtwork/seed", seed_no);
     let (text, origin, runnable) = if seed_no < a {
@@ -78,6 +80,8 @@ pub fn case(cfg: &Cfg, index: u64) -> FmtCase {
         (trivia_mutation(t, &mut srng), format!("corpus+trivia:{}", p.display()), false)
     } else if seed_no < a + b + c {
         (e2::grammar::source(&mut srng, true), "grammar".to_string(), false)
+    } else if seed_no >= a + b + c + d {
+        (verbatim_seed(&mut srng), "verbatim".to_string(), false)
     } else {
         // small programs: the observation code of E1 nests continuation thunks, and deep nesting is the known
         // exponential case of the formatter
@@ -134,8 +138,53 @@ pub fn trivia_mutation(text: &str, rng: &mut Rng) -> String {
             | _ => mutate::CommentKind::Line,
         };
         // comments are not inserted inside an existing comment token: gaps are between scanner tokens
-        inserts.push((gap, mutate::comment_text(kind, k)));
+        // a third of the comments carry hostile payloads (Unicode white space at line starts, tabs, CR, several lines)
+        let text = if rng.chance(1, 3) { e2::hostile::comment(rng, k + 10) } else { mutate::comment_text(kind, k) };
+        inserts.push((gap, text));
     }
     let with_comments = mutate::with_gap_inserts(text, &tokens, &inserts);
-    if rng.chance(1, 2) { mutate::respace_horizontal(&with_comments, rng) } else { with_comments }
+    match rng.below(4) {
+        | 0 | 1 => mutate::respace_horizontal(&with_comments, rng),
+        | 2 => e2::hostile::skip_character_spacing(&with_comments, rng),
+        | _ => with_comments,
+    }
+}
+
+/// A `@[format(verbatim)]` region with hand-made spacing (line breaks, runs of blanks, comments before closing
+/// delimiters, string literals with raw line breaks) placed in a context: binding, argument, tuple component, arm body,
+/// inside the payload of another directive (also a width-changing one, which pre-renders its payload), nested blocks.
+pub fn verbatim_seed(rng: &mut Rng) -> String {
+    let payload = {
+        let mut g = e2::grammar::Gram::new(rng, 30);
+        let depth = 1 + g_depth(&mut g);
+        match g_pick(&mut g, 5) {
+            | 0 => g.atom(depth),
+            | 1 => format!("({},   {} /- c9 -/)", g.atom(depth), g.atom(1)),
+            | 2 => format!("({}\n      , {}\n   -- c8\n )", g.atom(1), g.literal()),
+            | 3 => format!("{{ {}   {} }}", g.atom(1), g.literal()),
+            | _ => format!("(f   {}\n {})", g.literal(), g.atom(depth)),
+        }
+    };
+    let bracket = *rng.pick(&["@[format(verbatim)]", "@[format(verbatim())]", "@[format(verbatim) /- c7 -/ ]", "@[format(verbatim,)]", "@[format( verbatim )]"]);
+    let v = format!("{} {}", bracket, payload);
+    let outer = *rng.pick(&["width(20)", "width(1)", "width(200)", "indent(4)", "indent(1)", "layout(preserve)", "layout(ignore)", "parentheses(preserve)", "layout(blank_lines), width(30)"]);
+    match rng.below(10) {
+        | 0 => format!("let x = {v} in x\n"),
+        | 1 => format!("f ({v}) y\n"),
+        | 2 => format!("({v}, z)\n"),
+        | 3 => format!("@[format({outer})] g ({v}) x\n"),
+        | 4 => format!("(a,\n  @[format({outer})] g ({v}) x)\n"),
+        | 5 => format!("begin\n  let x = {v} that\n  x\nend\n"),
+        | 6 => format!("match s\n| +A x => {v}\n| _ => y\nend\n"),
+        | 7 => format!("@[format({outer})]\nlet t = {{ begin let u = ({v}) that ! k u end }} in\nret t\n"),
+        | 8 => format!("let x = {v} in\nlet y = {v} in\n(x, y)\n"),
+        | _ => format!("@[format({outer})]\nfn (a : A) =>\n  do b <- ! g ({v});\n  ret (a, b)\n"),
+    }
+}
+
+fn g_depth(g: &mut e2::grammar::Gram) -> usize {
+    g.pick_below(2)
+}
+fn g_pick(g: &mut e2::grammar::Gram, n: usize) -> usize {
+    g.pick_below(n)
 }
